@@ -44,7 +44,8 @@ func main() {
 			defer pprof.StopCPUProfile()
 		}
 	}
-	rdebug.SetGCPercent(800) // the analysis allocates many short-lived states; memory is not the constraint
+	rdebug.SetGCPercent(800)       // the analysis allocates many short-lived states; memory is not the constraint
+	rdebug.SetMemoryLimit(20 << 30) // ... up to a point: past 20 GiB collect eagerly instead of growing
 	start := time.Now()
 	defer func() {
 		if r := recover(); r != nil {
